@@ -71,7 +71,7 @@ Definition debug_check_legacy := debug_check_with (0, 1, 0)%Z (0, 2, 0)%Z.
 
 Fixpoint resolve_uni_static (C : compiled) (sl : list nat) (shape : list bool) (acts : list (option Z)) : result word :=
   match shape, acts with
-  | true :: _, Some vp :: _ => read (o_image C) (vp + Z.of_nat (nth 0 sl 0))%Z
+  | true :: _, Some vp :: _ => read (o_image C) (vp + Z.of_nat (nth 0%nat sl 0%nat))%Z
   | false :: shape', _ :: acts' => resolve_uni_static C sl shape' acts'
   | _, _ => Err (BadRead (-1)%Z)
   end.
@@ -81,10 +81,10 @@ Fixpoint resolve_multi_next_static (C : compiled) (arity : nat) (sl st : list na
          (shape : list bool) (acts : list (option Z)) : result word :=
   match shape, acts with
   | true :: shape', Some vp :: acts' =>
-      do w <- read (o_image C) (vp + Z.of_nat (nth va sl 0))%Z;
+      do w <- read (o_image C) (vp + Z.of_nat (nth va sl 0%nat))%Z;
       match w with
       | WIdx g =>
-          let dispatch' := (dispatch + Z.of_nat g * Z.of_nat (nth (va - 1) st 0))%Z in
+          let dispatch' := (dispatch + Z.of_nat g * Z.of_nat (nth (va - 1)%nat st 0%nat))%Z in
           if S va =? arity then read (o_image C) dispatch'
           else resolve_multi_next_static C arity sl st (S va) dispatch' shape' acts'
       | _ => Err (BadRead (-2)%Z)
@@ -97,7 +97,7 @@ Fixpoint resolve_multi_first_static (C : compiled) (arity : nat) (sl st : list n
          (shape : list bool) (acts : list (option Z)) : result word :=
   match shape, acts with
   | true :: shape', Some vp :: acts' =>
-      do w <- read (o_image C) (vp + Z.of_nat (nth 0 sl 0))%Z;
+      do w <- read (o_image C) (vp + Z.of_nat (nth 0%nat sl 0%nat))%Z;
       match w with
       | WRow a => resolve_multi_next_static C arity sl st 1 (Z.of_nat a) shape' acts'
       | _ => Err (BadRead (-2)%Z)
